@@ -98,10 +98,16 @@ def parallel_runs(ctx, replay=None):
     rng = random.Random(ctx.seed * 13 + 3)
     n_cases = 40 if ctx.tier == "quick" else 600
     viol, done, nontriv = [], 0, 0
-    for _ in range(n_cases):
+    for ci in range(n_cases):
         n = rng.randint(2, 9)
         shape = rng.random()
-        if shape < 0.25:     # a fan-out: one node releases k successors AT ONCE while the other workers sit idle in get()
+        wide = None
+        if ci in (3, 11):
+            # an explicit worker count above every default the library may have (os.cpu_count() + 4, 32): that many independent
+            # calls, that many workers (drawn from a stream of its own)
+            wide = random.Random(ctx.seed * 17 + ci).choice([33, 40, 48])
+            case = {"n": wide, "nodes": list(range(wide)), "edges": []}
+        elif shape < 0.25:     # a fan-out: one node releases k successors AT ONCE while the other workers sit idle in get()
             k = rng.randint(3, 5)
             pre = rng.randint(1, 2)
             nodes = list(range(pre + k))
@@ -120,6 +126,9 @@ def parallel_runs(ctx, replay=None):
         w = rng.choice([2, 3, 4, len(A), len(A) + 1])
         case.update(workers=w, max_errors=0, scheduler=rng.choice(["default", "random"]), failing={})
         user_level = rng.random() < 0.5
+        if wide is not None:
+            case["workers"] = w = wide
+            user_level = ci == 3
         peak, target = (rendezvous_user if user_level else rendezvous)(g, A, w, case["scheduler"])
         done += 1
         nontriv += target >= 2
